@@ -515,7 +515,13 @@ class Exec:
             cell = st.get(v)
             if isinstance(cell, PyList):
                 items = list(cell.items)
-                return 0, len(items), (lambda k, s, items=items: items[_need_conc(k)])
+
+                def take(k, s, items=items):
+                    it = items[_need_conc(k)]
+                    if hasattr(it, 'on_take'):      # element of an abstract generator: advancing to it is an effect
+                        it.on_take(s)
+                    return it
+                return 0, len(items), take
             if isinstance(cell, PyDict):
                 keys = list(cell.items)
                 return 0, len(keys), (lambda k, s, keys=keys: keys[_need_conc(k)])
@@ -855,8 +861,16 @@ class Exec:
             raise Unsupported('yield from')
         v = self.eval(node.value, st) if node.value is not None else None
         if not self._consumers:
-            # the generator itself is the unit under verification: record the yielded values
-            st.trace.append(('yield', v))
+            # the generator itself is the unit under verification: record what a consumer receives at this moment
+            # (a buffer the generator re-uses later is seen with its content of NOW) and prove the yield invariant
+            k = sum(1 for t in st.trace if t[0] == 'yield')
+            snap = self.snapshot(v, st)
+            st.trace.append(('yield', snap))
+            if getattr(self.unit, 'yields', None):
+                v0 = self.unit._view0
+                vnow = View(self.c, object.__getattribute__(v0, '_env'), st.heap)
+                goals = self.unit.yields(self.c, v0, vnow, k, self.wrap_ret(snap, st))
+                self.oblige_all('yield', st, dict(_named(goals)), node)
             return [(st, 'next', None)]
         target, body, consumer_ctx, gen_ctx = self._consumers[-1]
         genv = st.env
@@ -885,6 +899,14 @@ class Exec:
                 s2.consumer_envs.append(s2.env)
                 res.append((s2, kind, p))
         return res
+
+    def snapshot(self, v, st):
+        if isinstance(v, tuple):
+            return tuple(self.snapshot(x, st) for x in v)
+        if isinstance(v, Ref) and isinstance(st.heap.get(v.id), (Arr, ViewCell)):
+            a = st.get(v)
+            return st.alloc(self.c, Arr(a.shape, a.elem, a.kind))
+        return v
 
     # ------------------------------------------------------------------ expressions
     def eval_quiet(self, node, st):
@@ -1864,6 +1886,9 @@ class Exec:
         if f.kind in ('closure', 'lambda'):
             return self.inline_closure(f, args, kwargs, st, node)
         if f.kind == 'repo':
+            h = self.unit.abstract.get('call:' + f.target.split(':')[1])
+            if h is not None:        # assumed (abstract) contract of an out-of-reach function, stated by the unit
+                return h(self, st, args, kwargs, node)
             u = self.registry.get(f.target) or self.registry.get(_resolve_alias(f.target))
             if u is None:
                 short = f.target.split(':')[1]
